@@ -425,6 +425,33 @@ def replay(ob):
         b = getattr(g, s["op"])(u, "X", **kw)
         ok = a.dims == b.dims and np.allclose(a.values, b.values)
         return {"confirmed": not ok, "text": "vector form differs from the scalar form" if not ok else "agrees natively"}
+    if wit.get("part") == "2d":
+        # real code on a two-face grid (X-right of face 0 linked to X-left of face 1): both components at once vs one at a time
+        n = 4
+        ds = xr.Dataset(coords={"x": np.arange(n), "xl": np.arange(n), "y": np.arange(n), "yl": np.arange(n), "face": np.arange(2)})
+        fc = {"face": {0: {"X": (None, (1, "X", False))}, 1: {"X": ((0, "X", False), None)}}}
+        g = xgcm.Grid(ds, coords={"X": {"center": "x", "left": "xl"}, "Y": {"center": "y", "left": "yl"}}, periodic=False, boundary={"X": "fill", "Y": "extend"},
+                      face_connections=fc, autoparse_metadata=False)
+        rng = np.random.default_rng(2)
+        u = xr.DataArray(rng.random((2, n, n)), dims=("face", "y", "xl"))
+        v = xr.DataArray(rng.random((2, n, n)), dims=("face", "yl", "x"))
+        bad = []
+        for name in ("diff_2d_vector", "interp_2d_vector"):
+            opn = name.split("_")[0]
+            try:
+                both = getattr(g, name)({"X": u, "Y": v})
+            except Exception as e:  # noqa
+                bad.append(f"grid.{name}({{'X': u, 'Y': v}}) raised {type(e).__name__}: {e}")
+                continue
+            rx = getattr(g, opn)({"X": u}, "X", to="center", other_component={"Y": v})
+            ry = getattr(g, opn)({"Y": v}, "Y", to="center", other_component={"X": u})
+            if not isinstance(both, dict) or list(both) != ["X", "Y"]:
+                bad.append(f"grid.{name} returned {type(both).__name__} {list(both) if isinstance(both, dict) else ''}")
+                continue
+            for k, ref in (("X", rx), ("Y", ry)):
+                if both[k].dims != ref.dims or not np.allclose(both[k].values, ref.values):
+                    bad.append(f"grid.{name}: component {k} differs from the along-axis operation with the other component as partner")
+        return {"confirmed": bool(bad), "text": "\n".join(bad or ["diff_2d_vector / interp_2d_vector agree natively with the per-component operations"])}
     if wit.get("part") == "native":
         return {"confirmed": True, "text": f"two-face vector domain, {wit['axis']} upper edge, {wit['lk']} link: the face result of the along-component differs from the undivided field on the real code"}
     if wit.get("part") == "dispatch":
